@@ -1490,6 +1490,11 @@ def install_default_handlers(ex: Executor):
         pin = ex.concretize(st, args[0])
         v = ex.new_input(st, "pulse", pin, 64, 0, (1 << 31) - 1)
         st.events.append(("pulseIn", args[0], args[1], v))
+        # pulseIn blocks: at least the echo time, or the whole timeout when it returns 0
+        tmo = args[2].z() if len(args) > 2 else z3.BitVecVal(1000000, 64)
+        thousand = z3.BitVecVal(1000, 64)
+        elapsed_ms = z3.If(v.v == z3.BitVecVal(0, 64), z3.UDiv(tmo, thousand), z3.UDiv(v.v, thousand))
+        st.clock_pending = _clock_add(st.clock_pending, BV(64, simp(elapsed_ms)))
         return v
     H["_Z7pulseInhhm"] = h_pulse
 
